@@ -104,7 +104,12 @@ pub fn generate(r: &mut Rng, tier: Tier) -> Scenario {
     };
     let k = if tier == Tier::Quick { 2 } else { 3 };
     let entropy: Vec<u64> = (0..k).map(|_| r.next_u64() >> 11).collect();
-    if t2 && r.chance(1, 5) {
+    if t2 && !c.subdirs && shape_note == "plain" && r.chance(1, 4) {
+        if symlinked_directory(&mut world, r) {
+            shape_note = "symlinked-directory";
+        }
+    }
+    if t2 && shape_note != "symlinked-directory" && r.chance(1, 5) {
         // file-system shapes in place of an included file: the include must fail cleanly
         let targets: Vec<String> = world.files.keys().filter(|p| **p != world.base).cloned().collect();
         if !targets.is_empty() {
@@ -153,6 +158,96 @@ pub fn generate(r: &mut Rng, tier: Tier) -> Scenario {
     }
 }
 
+/// Put one included file behind a directory symlink: `X` moves to `realK/sub/X`, a link
+/// `lnkK -> realK/sub` is created, the directive naming `X` now says `lnkK/X`, the includes written
+/// inside `X` get a `../` in front (so `lnkK/../Y` must land in `realK/`, next to the link's target,
+/// not next to the link), everything `X` includes moves to `realK/`, and decoys of other content
+/// stand at the old top-level names. Returns false if the world has no suitable file.
+fn symlinked_directory(world: &mut World, r: &mut Rng) -> bool {
+    // (including file, line, name) of top-level includes of top-level files
+    let cands: Vec<(String, usize, String)> = world
+        .files
+        .iter()
+        .filter(|(p, _)| !p.contains('/'))
+        .flat_map(|(p, t)| split_lines(t).iter().enumerate().filter_map(|(i, l)| parse_include(l).filter(|x| !x.contains('/') && world.files.contains_key(*x)).map(|x| (p.clone(), i, x.to_string()))).collect::<Vec<_>>())
+        .collect();
+    if cands.is_empty() {
+        return false;
+    }
+    let (parent, line, x) = r.pick(&cands).clone();
+    // transitive closure of what X includes (all top-level in such worlds)
+    let mut closure: Vec<String> = Vec::new();
+    let mut todo = vec![x.clone()];
+    while let Some(f) = todo.pop() {
+        let Some(t) = world.files.get(&f) else { continue };
+        for l in split_lines(t) {
+            if let Some(n) = parse_include(l) {
+                if n.contains('/') {
+                    return false;
+                }
+                if world.files.contains_key(n) && !closure.contains(&n.to_string()) && n != x {
+                    closure.push(n.to_string());
+                    todo.push(n.to_string());
+                }
+            }
+        }
+    }
+    // nothing of it may be included from elsewhere
+    for (p, t) in &world.files {
+        if *p == x || closure.contains(p) {
+            continue;
+        }
+        for (i, l) in split_lines(t).iter().enumerate() {
+            if let Some(n) = parse_include(l) {
+                let ours = n == x || closure.iter().any(|c| c == n);
+                if ours && !(*p == parent && i == line) {
+                    return false;
+                }
+            }
+        }
+    }
+    let k = r.below(90) + 10;
+    let (real, link) = (format!("real{k}"), format!("lnk{k}"));
+    // X: its own includes climb out of the link
+    let xt = world.files.remove(&x).unwrap_or_default();
+    let trailing = xt.ends_with('\n');
+    let mut nx: Vec<String> = split_lines(&xt)
+        .iter()
+        .map(|l| match parse_include(l) {
+            Some(n) => l.replacen(&format!("\"{n}\""), &format!("\"../{n}\""), 1),
+            None => (*l).to_string(),
+        })
+        .collect();
+    if nx.is_empty() {
+        nx.push(String::new());
+    }
+    let mut nxt = nx.join("\n");
+    if trailing {
+        nxt.push('\n');
+    }
+    world.files.insert(format!("{real}/sub/{x}"), nxt);
+    for c in &closure {
+        if let Some(t) = world.files.remove(c) {
+            world.files.insert(format!("{real}/{c}"), t);
+            // a decoy of other content where a lexical `..` would look
+            world.files.insert(c.clone(), "    li t0, 99\n    frobnicate\n".to_string());
+        }
+    }
+    world.special.insert(link.clone(), world::Special::Symlink(format!("{real}/sub")));
+    // the directive in the parent
+    if let Some(pt) = world.files.get(&parent).cloned() {
+        let trailing = pt.ends_with('\n');
+        let mut ls: Vec<String> = split_lines(&pt).iter().map(|s| (*s).to_string()).collect();
+        ls[line] = ls[line].replacen(&format!("\"{x}\""), &format!("\"{link}/{x}\""), 1);
+        let mut np = ls.join("\n");
+        if trailing {
+            np.push('\n');
+        }
+        world.files.insert(parent, np);
+    }
+    true
+}
+
 /// Insert a line at a random line boundary of a text (beginning, middle or end), keeping the
 /// text's trailing-newline habit.
 fn insert_line(text: &str, line: &str, r: &mut Rng) -> String {
@@ -187,7 +282,7 @@ pub fn walk(world: &World, oks: &[bool]) -> (Vec<Directive>, Vec<PastedLine>) {
             if let Some(rel) = parse_include(l) {
                 let reader_ok = oks.get(*k).copied().unwrap_or(false);
                 *k += 1;
-                let target = resolve(dir_of(path), rel);
+                let target = world.resolve_in(dir_of(path), rel);
                 // a reader that hands back a file still being read (same id) is refused by the parser
                 let cyclic = target.as_ref().is_some_and(|t| ancestors.contains(t));
                 let ok = reader_ok && !cyclic;
@@ -594,6 +689,9 @@ fn check_t2(scn: &Scenario, stats: &mut Stats) -> Vec<Violation> {
         stats.inc("harness:sandbox_failed");
         return out;
     };
+    if scn.world.special.keys().any(|k| k.starts_with("lnk")) {
+        stats.inc("probe:include_through_directory_symlink");
+    }
     let run = |flags: &[&str], plan: &[String], sbx: &t2::Sandbox, base: &str, e: u64| {
         let f: Vec<String> = flags.iter().map(|s| (*s).to_string()).collect();
         t2::run_rva(&t2::RvaCall { sandbox: sbx, base, flags: &f, entropy: e, plan, profile: &spec.profile, force_color: false, cpu_seconds: 10 })
@@ -630,7 +728,7 @@ fn check_t2(scn: &Scenario, stats: &mut Stats) -> Vec<Violation> {
             ancestors.push(path.to_string());
             for l in split_lines(text) {
                 if let Some(rel) = parse_include(l) {
-                    let target = resolve(dir_of(path), rel);
+                    let target = world.resolve_in(dir_of(path), rel);
                     let cyclic = target.as_ref().is_some_and(|t| ancestors.contains(t));
                     let mut ok = false;
                     if !cyclic {
